@@ -11,6 +11,8 @@ of position 0), and judges the implementation's own observations:
 r is not predicted (that would be the grow policy = the model's job); it is inferred from the observed
 cursor after each op and only required to be monotone and <= c.
 """
+import array
+import sys
 import zlib
 
 from .runner import Spec
@@ -31,6 +33,15 @@ def payload(tok):
         n, s = tok[1:].split(":")
         n, s = int(n), int(s)
         return bytes((s + j) % 256 for j in range(n))
+    if tok.startswith("@"):
+        n, s = tok[1:].split(":")
+        n, s = int(n), int(s)
+        words = array.array("I", range(s << 22, (s << 22) + n // 4 + 1))
+        if words.itemsize != 4:
+            words = array.array("L", words)
+        if sys.byteorder != "little":
+            words.byteswap()
+        return words.tobytes()[:n]
     return bytes.fromhex(tok)
 
 
@@ -56,7 +67,13 @@ class C13(Spec):
             "0/1/70), longer exhaustive sequences (quick: length 4 over a reduced 12-op alphabet; thorough: length 4 over the full "
             "alphabet, length 5 over the reduced one), random "
             "sequences of up to 60 ops with sizes at 31..33/63..65/127..129/255..257 and at the state-dependent boundaries "
-            "cap-len and cap/2-unread (+-1), int64-extreme seek offsets, and a small off-domain class with negative Next/Grow. "
+            "cap-len and cap/2-unread (+-1), int64-extreme seek offsets, LARGE-SIZE sequences (write/grow/read sizes 4095..4097, 8192, "
+            "65535..65537, 70000, 131072, 200000, 1 MiB: deterministic skeletons fill - drain to 0/1/64/65/4096 left - Tidy/Grow - read, "
+            "consume a prefix - large write - Seek back - read, large write into fresh/reset/drained object; plus random sequences "
+            "with seeks back into the consumed region followed by reads), and a small off-domain class with negative Next/Grow. "
+            "Caller-memory discipline: one source scratch slice for all writes, overwritten with 0xEE after each Write (canary behind "
+            "the chunk, chunk checksum), one destination scratch for all reads, overwritten after rendering: aliasing of caller "
+            "memory shows as wrong content. "
             "distinct by script line; non-trivial = some read returned data after a write")
     trusted_base = ["model of Go slices: (contents, len, cap, nil-ness); bytes between len and cap are not modelled (shown unobservable by "
                     "inspection: Write overwrites, Grow truncates them)",
@@ -123,6 +140,8 @@ class C13(Spec):
                     p = bytes([1 if int(w[1]) != 0 else 0])
                 else:
                     p = int(w[1]).to_bytes(WRITE_INT[name], "little", signed=True)
+                if "clobber" in res or "srcmod" in res:
+                    return ("caller-memory", "%s modified the caller's slice or wrote behind it (%s)" % (where, " ".join(res)))
                 if kind == "buffer":
                     if res != ["w", str(len(p))]:
                         return ("write-result", "%s returned %s, expected (%d, nil)" % (where, " ".join(res), len(p)))
